@@ -195,6 +195,11 @@ def run(ctx):
     cases = [LE.strip_case(c) for c in LE.load_corpus()]
     for _ in range(ctx.budget(8, 100)):
         cases.append(LE.strip_case(retarget_chain(ctx.rng)))
+    for _ in range(ctx.budget(10, 100)):
+        cases.append(LE.strip_case(empty_neighbour(ctx.rng)))
+    for _ in range(ctx.budget(6, 60)):
+        cases.append(LE.strip_case(three_callers(ctx.rng)))
+        cases.append(LE.strip_case(shared_tail(ctx.rng)))
     for k in range(ctx.budget(250, 5000)):
         cases.append(LE.strip_case(vary(emodify.gen_case(ctx.rng), ctx.rng, k)))
     reqs = []
